@@ -951,7 +951,12 @@ class ICalendarFile(File):
                 except KeyError:
                     pass
                 else:
-                    if p is not None:
+                    if isinstance(p, list):
+                        # a property that occurs several times (or holds
+                        # several values, e.g. FREEBUSY periods)
+                        for v in p:
+                            yield v.to_ical()
+                    elif p is not None:
                         yield p.to_ical()
             else:
                 raise AssertionError(f"segments: {segments!r}")
